@@ -331,6 +331,14 @@ type SMTCtx struct {
 	usesStrLt bool
 	inQuant   int // >0 while building the body of a quantifier: no side assertions, no naming
 	qvars     map[string]string // bound-variable symbol -> sort (for sum summands under enclosing binders)
+	qrecs     []qrec            // outermost universal quantifiers built from specifications (for goal-directed instantiation)
+}
+
+// qrec records one outermost universal quantifier term built from a specification.
+type qrec struct {
+	full string      // the complete (forall ...) term
+	vars [][2]string // (symbol, sort)
+	body string      // the body
 }
 
 func (c *SMTCtx) noteQVar(sym, sortv string) {
@@ -545,3 +553,76 @@ const fPrelude = `(define-fun f_isfin ((a F)) Bool ((_ is fin) a))
 (define-fun f_ceil ((a F)) F (ite ((_ is fin) a) (fin (to_real (- (to_int (- (fval a)))))) a))
 (define-fun f_abs ((a F)) F (ite ((_ is fin) a) (fin (ite (>= (fval a) 0.0) (fval a) (- (fval a)))) (ite ((_ is nan) a) nan pinf)))
 `
+
+// substSym replaces every occurrence of the symbol sym (as a whole SMT symbol) in s by repl.
+func substSym(s, sym, repl string) string {
+	if !strings.Contains(s, sym) {
+		return s
+	}
+	var b strings.Builder
+	for i := 0; i < len(s); {
+		j := strings.Index(s[i:], sym)
+		if j < 0 {
+			b.WriteString(s[i:])
+			break
+		}
+		j += i
+		end := j + len(sym)
+		okL := j == 0 || s[j-1] == ' ' || s[j-1] == '('
+		okR := end == len(s) || s[end] == ' ' || s[end] == ')'
+		b.WriteString(s[i:j])
+		if okL && okR {
+			b.WriteString(repl)
+		} else {
+			b.WriteString(sym)
+		}
+		i = end
+	}
+	return b.String()
+}
+
+// splitForall parses "(forall ((v S) ...) BODY)" as built by the specification evaluator.
+func splitForall(t string) (vars [][2]string, body string, ok bool) {
+	const pre = "(forall ("
+	if !strings.HasPrefix(t, pre) || !strings.HasSuffix(t, ")") {
+		return nil, "", false
+	}
+	i := len(pre)
+	for i < len(t) && t[i] == '(' {
+		// one declaration (sym sort) - the sort may contain parentheses
+		depth := 0
+		j := i
+		for ; j < len(t); j++ {
+			if t[j] == '(' {
+				depth++
+			} else if t[j] == ')' {
+				depth--
+				if depth == 0 {
+					break
+				}
+			}
+		}
+		d := t[i+1 : j]
+		sp := strings.Index(d, " ")
+		if sp < 0 {
+			return nil, "", false
+		}
+		vars = append(vars, [2]string{d[:sp], d[sp+1:]})
+		i = j + 1
+		if i < len(t) && t[i] == ' ' {
+			i++
+		}
+	}
+	if i >= len(t) || t[i] != ')' {
+		return nil, "", false
+	}
+	i++
+	if i >= len(t) || t[i] != ' ' {
+		return nil, "", false
+	}
+	body = t[i+1 : len(t)-1]
+	if strings.HasPrefix(body, "(! ") {
+		return nil, "", false // patterned quantifier: leave alone
+	}
+	return vars, body, true
+}
